@@ -240,6 +240,19 @@ type sval struct {
 	off   *term  // slice: offset into base
 	slen  *term  // slice: length (nil unknown)
 	elems int
+	arr   *arrVal // array ('a'), pointer to array ('p'), or slice of an array ('s' with aoff)
+	aoff  int
+}
+
+// arrVal is a fixed-size array of abstract integers, shared by pointers to it.
+type arrVal struct {
+	elems []sval
+	elemT types.Type
+}
+
+func (a *arrVal) clone() *arrVal {
+	n := &arrVal{elems: append([]sval{}, a.elems...), elemT: a.elemT}
+	return n
 }
 
 type symEval struct {
@@ -253,6 +266,7 @@ type symEval struct {
 	intBit int
 	opaque map[string]bool // callees kept as uninterpreted functions
 	steps  int
+	errNil bool // error results of opaque calls are taken to be nil (the success path is interpreted)
 }
 
 type symLoop struct {
@@ -407,6 +421,15 @@ func (se *symEval) zero(t types.Type) sval {
 	if _, _, ok := se.width(t); ok {
 		return se.intVal(tConst(0), t)
 	}
+	if at, ok := t.Underlying().(*types.Array); ok && at.Len() <= 256 {
+		if _, _, isInt := se.width(at.Elem()); isInt {
+			a := &arrVal{elemT: at.Elem()}
+			for i := int64(0); i < at.Len(); i++ {
+				a.elems = append(a.elems, se.intVal(tConst(0), at.Elem()))
+			}
+			return sval{kind: 'a', arr: a, typ: t}
+		}
+	}
 	if b, ok := t.Underlying().(*types.Basic); ok && b.Info()&types.IsBoolean != 0 {
 		return sval{kind: 'b', bk: true}
 	}
@@ -428,10 +451,26 @@ func (se *symEval) execBlock(fi *FuncInfo, list []ast.Stmt) (flow, []sval) {
 
 func (se *symEval) assignTo(fi *FuncInfo, lhs ast.Expr, v sval) {
 	info := fi.Pkg.TypesInfo
+	if ix, isIx := ast.Unparen(lhs).(*ast.IndexExpr); isIx {
+		base := se.eval(fi, ix.X)
+		idx := se.eval(fi, ix.Index)
+		if base.arr != nil && idx.kind == 'i' && idx.t.isConst() && v.kind == 'i' {
+			k := int(idx.t.k) + base.aoff
+			if k >= 0 && k < len(base.arr.elems) {
+				base.arr.elems[k] = se.intVal(v.t, base.arr.elemT)
+				return
+			}
+		}
+		se.fail(lhs, "store to "+exprStr(lhs)+" is not supported (array element at a constant index expected)")
+		return
+	}
 	id, ok := ast.Unparen(lhs).(*ast.Ident)
 	if !ok {
 		se.fail(lhs, "assignment to "+exprStr(lhs)+" is not supported")
 		return
+	}
+	if v.kind == 'a' && v.arr != nil {
+		v.arr = v.arr.clone() // arrays are values
 	}
 	if id.Name == "_" {
 		return
@@ -806,7 +845,15 @@ func (se *symEval) eval(fi *FuncInfo, e ast.Expr) sval {
 			return sval{kind: 'b', b: constant.BoolVal(tv.Value), bk: true}
 		}
 	}
+	if tv, ok := info.Types[e]; ok && tv.IsNil() {
+		return sval{kind: 'n'}
+	}
 	switch x := e.(type) {
+	case *ast.StarExpr:
+		v := se.eval(fi, x.X)
+		if v.kind == 'p' && v.arr != nil {
+			return sval{kind: 'a', arr: v.arr, typ: info.TypeOf(x)}
+		}
 	case *ast.Ident:
 		obj := info.Uses[x]
 		if obj == nil {
@@ -849,6 +896,10 @@ func (se *symEval) eval(fi *FuncInfo, e ast.Expr) sval {
 			return sval{kind: 'b'}
 		case token.ADD:
 			return v
+		case token.AND:
+			if v.kind == 'a' && v.arr != nil {
+				return sval{kind: 'p', arr: v.arr, typ: info.TypeOf(x)}
+			}
 		}
 	case *ast.CallExpr:
 		if tv, ok := info.Types[x.Fun]; ok && tv.IsType() && len(x.Args) == 1 {
@@ -862,12 +913,29 @@ func (se *symEval) eval(fi *FuncInfo, e ast.Expr) sval {
 	case *ast.IndexExpr:
 		base := se.eval(fi, x.X)
 		idx := se.eval(fi, x.Index)
-		if base.kind == 's' && idx.kind == 'i' {
+		if base.arr != nil && idx.kind == 'i' && idx.t.isConst() {
+			k := int(idx.t.k) + base.aoff
+			if k >= 0 && k < len(base.arr.elems) {
+				return base.arr.elems[k]
+			}
+		}
+		if base.kind == 's' && base.arr == nil && idx.kind == 'i' {
 			off := mk("add", base.off, se.toIndex(idx))
 			return sval{kind: 'i', t: tSym("byte:" + base.base + "[" + off.String() + "]"), typ: info.TypeOf(x)}
 		}
 	case *ast.SliceExpr:
 		base := se.eval(fi, x.X)
+		if base.arr != nil && !x.Slice3 {
+			lo := 0
+			if x.Low != nil {
+				lv := se.eval(fi, x.Low)
+				if lv.kind != 'i' || !lv.t.isConst() {
+					break
+				}
+				lo = int(lv.t.k)
+			}
+			return sval{kind: 's', arr: base.arr, aoff: base.aoff + lo, typ: info.TypeOf(x)}
+		}
 		if base.kind == 's' && !x.Slice3 {
 			lo := tConst(0)
 			if x.Low != nil {
@@ -966,6 +1034,9 @@ func (se *symEval) renorm(t *term, to types.Type) sval {
 func (se *symEval) binop(n ast.Node, op token.Token, l, r sval, resT types.Type) sval {
 	switch op {
 	case token.EQL, token.NEQ, token.LSS, token.LEQ, token.GTR, token.GEQ:
+		if l.kind == 'n' && r.kind == 'n' {
+			return sval{kind: 'b', b: op == token.EQL, bk: true}
+		}
 		if l.kind == 'i' && r.kind == 'i' && l.t.isConst() && r.t.isConst() {
 			_, uns, _ := se.width(l.typ)
 			var res bool
@@ -1087,6 +1158,60 @@ func (se *symEval) call(fi *FuncInfo, c *ast.CallExpr) []sval {
 			return []sval{{kind: 'i', t: mk("rotl", x.t, tConst(uint64((n%64+64)%64))), typ: types.Typ[types.Uint64]}}
 		}
 	}
+	// encoding/binary on (slices of) tracked arrays
+	if strings.HasPrefix(name, "binary.(bigEndian).") || strings.HasPrefix(name, "binary.(littleEndian).") {
+		be := strings.HasPrefix(name, "binary.(bigEndian).")
+		meth := name[strings.LastIndex(name, ".")+1:]
+		width := map[string]int{"PutUint16": 2, "PutUint32": 4, "PutUint64": 8, "Uint16": 2, "Uint32": 4, "Uint64": 8}[meth]
+		if width > 0 && len(c.Args) >= 1 {
+			buf := se.eval(fi, c.Args[0])
+			if buf.arr != nil && buf.aoff+width <= len(buf.arr.elems) {
+				if strings.HasPrefix(meth, "Put") && len(c.Args) == 2 {
+					v := se.eval(fi, c.Args[1])
+					if v.kind == 'i' {
+						for k := 0; k < width; k++ {
+							sh := 8 * k
+							if be {
+								sh = 8 * (width - 1 - k)
+							}
+							b := mkExt("zext", 8, mkExt("trunc", 8, mk("lshr", v.t, tConst(uint64(sh)))))
+							if sh == 0 {
+								b = mkExt("zext", 8, mkExt("trunc", 8, v.t))
+							}
+							buf.arr.elems[buf.aoff+k] = sval{kind: 'i', t: b, typ: buf.arr.elemT}
+						}
+						return nil
+					}
+				} else if !strings.HasPrefix(meth, "Put") {
+					acc := tConst(0)
+					for k := 0; k < width; k++ {
+						sh := 8 * k
+						if be {
+							sh = 8 * (width - 1 - k)
+						}
+						e := buf.arr.elems[buf.aoff+k]
+						if e.kind != 'i' {
+							se.fail(c, "element of the buffer is not an integer")
+							return []sval{{kind: 'u'}}
+						}
+						acc = mk("or", acc, mk("shl", e.t, tConst(uint64(sh))))
+					}
+					rt := map[int]types.Type{2: types.Typ[types.Uint16], 4: types.Typ[types.Uint32], 8: types.Typ[types.Uint64]}[width]
+					return []sval{{kind: 'i', t: acc, typ: rt}}
+				}
+			}
+		}
+	}
+	if name == "builtin.copy" && len(c.Args) == 2 {
+		dst := se.eval(fi, c.Args[0])
+		if dst.kind == 's' && dst.arr != nil {
+			// an unknown number of elements is overwritten with unknown bytes
+			for k := dst.aoff; k < len(dst.arr.elems); k++ {
+				dst.arr.elems[k] = sval{kind: 'i', t: tSym(fmt.Sprintf("byte:copy@%d[%d]", se.p.Fset.Position(c.Pos()).Line, k)), typ: dst.arr.elemT}
+			}
+			return []sval{{kind: 'i', t: se.newSym(fmt.Sprintf("copied@%d", se.p.Fset.Position(c.Pos()).Line)), typ: types.Typ[types.Int]}}
+		}
+	}
 	fn := calleeOf(info, c)
 	var callee *FuncInfo
 	if fn != nil {
@@ -1094,10 +1219,39 @@ func (se *symEval) call(fi *FuncInfo, c *ast.CallExpr) []sval {
 	}
 	var args []sval
 	for _, a := range c.Args {
-		args = append(args, se.eval(fi, a))
+		before := len(se.unsup)
+		v := se.eval(fi, a)
+		if se.opaque[name] && len(se.unsup) > before {
+			// what an uninterpreted function is given need not be understood
+			se.unsup = se.unsup[:before]
+			v = sval{kind: 'u'}
+		}
+		args = append(args, v)
 	}
-	if se.opaque[name] {
+	if se.opaque[name] && fn != nil {
 		sig := fn.Type().(*types.Signature)
+		// buffers handed to an uninterpreted function hold unknown bytes afterwards
+		for _, a := range args {
+			if (a.kind == 's' || a.kind == 'p') && a.arr != nil {
+				for k := a.aoff; k < len(a.arr.elems); k++ {
+					a.arr.elems[k] = sval{kind: 'i', t: tSym(fmt.Sprintf("byte:%s[%d]", name, k)), typ: a.arr.elemT}
+				}
+			}
+		}
+		if se.errNil {
+			var out []sval
+			for i := 0; i < sig.Results().Len(); i++ {
+				rt := sig.Results().At(i).Type()
+				if isErrorType(rt) {
+					out = append(out, sval{kind: 'n'})
+				} else if _, _, isInt := se.width(rt); isInt {
+					out = append(out, sval{kind: 'i', t: tSym(fmt.Sprintf("%s.%d", name, i)), typ: rt})
+				} else {
+					out = append(out, sval{kind: 'u'})
+				}
+			}
+			return out
+		}
 		var at []string
 		for _, a := range args {
 			switch a.kind {
@@ -1118,6 +1272,30 @@ func (se *symEval) call(fi *FuncInfo, c *ast.CallExpr) []sval {
 	if callee == nil || callee.Decl.Body == nil {
 		se.fail(c, "call of "+name+" cannot be followed")
 		return []sval{{kind: 'u'}}
+	}
+	// method receivers
+	if callee.Decl.Recv != nil && len(callee.Decl.Recv.List) == 1 && len(callee.Decl.Recv.List[0].Names) == 1 {
+		if rx := recvExpr(c); rx != nil {
+			rv := se.eval(fi, rx)
+			robj := callee.Pkg.TypesInfo.Defs[callee.Decl.Recv.List[0].Names[0]]
+			if robj != nil {
+				_, ptrRecv := robj.Type().Underlying().(*types.Pointer)
+				switch {
+				case rv.kind == 'a' && ptrRecv:
+					rv = sval{kind: 'p', arr: rv.arr, typ: robj.Type()}
+				case rv.kind == 'a' && rv.arr != nil:
+					rv.arr = rv.arr.clone()
+				case rv.kind == 'p' && !ptrRecv && rv.arr != nil:
+					rv = sval{kind: 'a', arr: rv.arr.clone(), typ: robj.Type()}
+				}
+				se.env[robj] = rv
+			}
+		}
+	}
+	for i := range args {
+		if args[i].kind == 'a' && args[i].arr != nil {
+			args[i].arr = args[i].arr.clone()
+		}
 	}
 	vals, ok := se.evalFunc(callee, args)
 	if !ok {
@@ -1174,4 +1352,156 @@ func (se *symEval) residue(t *term) *term {
 		}
 	}
 	return t
+}
+
+// ---------------------------------------------------------------------------
+// Bit provenance of a term: for every bit of the 64-bit value, a constant, a bit of a symbol, or unknown.
+
+type pbit struct {
+	kind byte // '0', '1', 's' (bit of a symbol), '?'
+	sym  string
+	bit  int
+}
+
+func provenance(t *term) [64]pbit {
+	var out [64]pbit
+	unknown := func() [64]pbit {
+		var u [64]pbit
+		for i := range u {
+			u[i] = pbit{kind: '?'}
+		}
+		return u
+	}
+	switch t.op {
+	case "const":
+		for i := 0; i < 64; i++ {
+			if t.k>>uint(i)&1 == 1 {
+				out[i] = pbit{kind: '1'}
+			} else {
+				out[i] = pbit{kind: '0'}
+			}
+		}
+		return out
+	case "sym":
+		w := 64
+		if strings.HasPrefix(t.name, "byte:") {
+			w = 8
+		}
+		for i := 0; i < 64; i++ {
+			if i < w {
+				out[i] = pbit{kind: 's', sym: t.name, bit: i}
+			} else {
+				out[i] = pbit{kind: '0'}
+			}
+		}
+		return out
+	case "zext", "trunc":
+		in := provenance(t.args[0])
+		for i := 0; i < 64; i++ {
+			if i < int(t.k) {
+				out[i] = in[i]
+			} else {
+				out[i] = pbit{kind: '0'}
+			}
+		}
+		return out
+	case "sext":
+		in := provenance(t.args[0])
+		for i := 0; i < 64; i++ {
+			if i < int(t.k) {
+				out[i] = in[i]
+			} else {
+				out[i] = in[int(t.k)-1]
+			}
+		}
+		return out
+	case "shl", "lshr", "ashr":
+		if !t.args[1].isConst() {
+			return unknown()
+		}
+		n := int(t.args[1].k)
+		in := provenance(t.args[0])
+		for i := 0; i < 64; i++ {
+			switch t.op {
+			case "shl":
+				if i-n >= 0 {
+					out[i] = in[i-n]
+				} else {
+					out[i] = pbit{kind: '0'}
+				}
+			case "lshr":
+				if i+n < 64 {
+					out[i] = in[i+n]
+				} else {
+					out[i] = pbit{kind: '0'}
+				}
+			case "ashr":
+				if i+n < 64 {
+					out[i] = in[i+n]
+				} else {
+					out[i] = in[63]
+				}
+			}
+		}
+		return out
+	case "and", "or", "xor", "add":
+		acc := provenance(t.args[0])
+		for _, a := range t.args[1:] {
+			b := provenance(a)
+			carry := false
+			for i := 0; i < 64; i++ {
+				x, y := acc[i], b[i]
+				switch t.op {
+				case "and":
+					switch {
+					case x.kind == '0' || y.kind == '0':
+						acc[i] = pbit{kind: '0'}
+					case x.kind == '1':
+						acc[i] = y
+					case y.kind == '1':
+						acc[i] = x
+					default:
+						acc[i] = pbit{kind: '?'}
+					}
+				case "or":
+					switch {
+					case x.kind == '1' || y.kind == '1':
+						acc[i] = pbit{kind: '1'}
+					case x.kind == '0':
+						acc[i] = y
+					case y.kind == '0':
+						acc[i] = x
+					default:
+						acc[i] = pbit{kind: '?'}
+					}
+				case "xor":
+					switch {
+					case x.kind == '0':
+						acc[i] = y
+					case y.kind == '0':
+						acc[i] = x
+					case x.kind == '1' && y.kind == '1':
+						acc[i] = pbit{kind: '0'}
+					default:
+						acc[i] = pbit{kind: '?'}
+					}
+				case "add":
+					// without a possible carry into this position, adding a known-zero bit keeps the other bit
+					switch {
+					case carry:
+						acc[i] = pbit{kind: '?'}
+					case x.kind == '0':
+						acc[i] = y
+					case y.kind == '0':
+						acc[i] = x
+					default:
+						acc[i] = pbit{kind: '?'}
+						carry = true
+					}
+				}
+			}
+		}
+		return acc
+	}
+	return unknown()
 }
